@@ -94,7 +94,7 @@ impl MutSpace {
                 Fam::Truncate => l,
                 Fam::Trailing => 3,
                 Fam::FieldValue => 6 * ctrl.len() as u64,
-                Fam::Resize => 8 * layout.components.len() as u64,
+                Fam::Resize => 20 * layout.components.len() as u64,
                 Fam::ElemValue => 4 * elems.len() as u64,
                 Fam::Swap => swaps.len() as u64 + 4,
                 Fam::CountPair => {
@@ -180,12 +180,19 @@ impl MutSpace {
                 label = format!("field {} set to {}", f.name, classify(v, orig, mx));
             },
             Fam::Resize => {
-                let (name, lo, ll, ps, pe) = &self.layout.components[(idx / 8) as usize];
-                let k = idx % 8;
+                let (name, lo, ll, ps, pe) = &self.layout.components[(idx / 20) as usize];
+                let k = idx % 20;
                 let item = self.item_size(*ps, *pe);
-                let amount = if k & 1 == 0 { 1 } else { item };
+                // one byte, one item, one BASE-field element (less than an item for extension elements and digests), two
+                // items, half an item
+                let amounts = [1, item, self.pm1.len(), 2 * item, (item / 2).max(1)];
+                let amount = amounts[(k / 4) as usize];
+                // an amount already produced under an earlier label is not repeated
+                if amounts[..(k / 4) as usize].contains(&amount) {
+                    return None;
+                }
                 let extend = k & 2 != 0;
-                let fix = k & 4 != 0;
+                let fix = k & 1 != 0;
                 let cur = read_le(&b, *lo, *ll);
                 if extend {
                     let ins: Vec<u8> = vec![0u8; amount];
@@ -202,7 +209,7 @@ impl MutSpace {
                         write_le(&mut b, *lo, *ll, cur - amount as u64);
                     }
                 }
-                label = format!("component {name} {} by {} ({}) {} its length field", if extend { "extended" } else { "truncated" }, if amount == 1 { "one byte".to_string() } else { "one item".to_string() }, amount, if fix { "fixing" } else { "without fixing" });
+                label = format!("component {name} {} by {} ({}) {} its length field", if extend { "extended" } else { "truncated" }, ["one byte", "one item", "one base-field element", "two items", "half an item"][(k / 4) as usize].to_string(), amount, if fix { "fixing" } else { "without fixing" });
             },
             Fam::ElemValue => {
                 let fi = self.elems[(idx / 4) as usize];
